@@ -358,7 +358,7 @@ func genCase(t *rapid.T) Case {
 	if gen.Pick(t, 3, "trap") == 0 {
 		c.Ctx.Traps = uint32(apd.InvalidOperation)
 	}
-	if (arith.P0Op(c.Op) || c.Op == "quo" || c.Op == "quointeger") && gen.Pick(t, 6, "p0") == 0 {
+	if (arith.P0Op(c.Op) || c.Op == "quo" || c.Op == "quointeger" || c.Op == "rem") && gen.Pick(t, 6, "p0") == 0 {
 		c.Ctx.P = 0 // rounding disabled (as in BaseContext): the special-value rules still apply
 	}
 	k := rapid.IntRange(0, 1000).Draw(t, "k")
@@ -403,6 +403,9 @@ func genCase(t *rapid.T) Case {
 }
 
 func check(c Case, st *core.Stats) error {
+	if c.Op == "rem" && c.Ctx.P == 0 && c.X.Form == 0 && c.Y.Form == 0 {
+		return nil // with rounding disabled no integer quotient fits: Rem of finite operands is DivisionImpossible
+	}
 	bin := arith.Binary(c.Op)
 	e, isNaN := nanResult(c.X, c.Y, bin)
 	if !isNaN {
@@ -459,7 +462,7 @@ func checkOne(c Case, e expect, pat string, st *core.Stats) error {
 		// division is actually needed: a NaN or infinite operand and a zero divisor are decided
 		// by the special-value rules in every context.
 		p0Divides := (c.Op == "quo" || c.Op == "quointeger") && c.X.Form == 0 && c.Y.Form == 0 && !c.Y.IsZero()
-		if (c.Ctx.P == 0 && (p0Divides || (c.Op != "quo" && c.Op != "quointeger"))) || arith.NearLimit(c.Case, nil) {
+		if (c.Ctx.P == 0 && (p0Divides || (c.Op != "quo" && c.Op != "quointeger"))) || nearLimit(c.Case) {
 			return nil
 		}
 		return fmt.Errorf("%s; unexpected error (specification gives %s)", desc, e.kind)
@@ -475,10 +478,16 @@ func checkOne(c Case, e expect, pat string, st *core.Stats) error {
 		mask = ^apd.Condition(apd.Clamped)
 	}
 	if e.kind == "x" {
-		if c.Ctx.P == 0 || arith.NearLimit(c.Case, nil) {
+		if nearLimit(c.Case) {
 			return nil
 		}
-		want := ref.RoundOrZero(ref.FromDec(c.X), c.Ctx)
+		// the first operand, fitted to the context like any result (with Precision 0: exact,
+		// subject to the exponent limits only) - the model of Round
+		re := arith.Reference(arith.Case{Op: "round", Ctx: c.Ctx, X: c.X, Y: core.Dec{Coeff: "0"}})
+		if !re.Defined || re.Limit {
+			return nil
+		}
+		want := re.R
 		e.cond = want.Flags()
 		mask = apd.Inexact | apd.Subnormal | apd.Underflow | apd.Overflow | apd.InvalidOperation | apd.DivisionByZero | apd.DivisionUndefined | apd.DivisionImpossible
 		if !ref.SameValue(o.D, want) {
@@ -531,4 +540,19 @@ func checkDiff(c Case, st *core.Stats) error {
 		return err
 	}
 	return arith.DiffExec(c.Case, arith.DiffOpts{Value: true, Flags: true}, 1, st)
+}
+
+// nearLimit: operands, exponent gaps or - where the exact-result model applies - the exact
+// result within the band around the package's +/-100000 exponent limits (0E50000 * 0E50001
+// has exponent 100001): a clean error is acceptable there.
+func nearLimit(c arith.Case) bool {
+	if arith.NearLimit(c, nil) {
+		return true
+	}
+	if c.X.Form == 0 && (!arith.Binary(c.Op) || c.Y.Form == 0) {
+		if e := arith.Reference(c); e.Limit {
+			return true
+		}
+	}
+	return false
 }
